@@ -322,6 +322,20 @@ pub fn act(w: &mut World, op: &Op) -> bool {
             }
             None => false,
         },
+        Op::ReplayHandshake { nth, from } => {
+            let hs: Vec<usize> = w
+                .log
+                .iter()
+                .filter(|d| d.from_node.is_some() && matches!(d.decoded.as_ref().map(|p| &p.0.kind), Some(PacketKind::Handshake { .. })))
+                .map(|d| d.idx)
+                .collect();
+            let Some(i) = hs.iter().rev().nth(*nth as usize).copied() else { return false };
+            let dg = w.log[i].clone();
+            let Some(to) = w.node_by_addr(&dg.to_addr) else { return false };
+            let fa = addr_of(w, *from, dg.from_addr);
+            w.inject(to, fa, dg.bytes, Some(i), Some(if fa == dg.from_addr { "replay".into() } else { "replay-from-other-address".into() }));
+            true
+        }
         Op::Mutate { d, m, from } => match sel(&w.log, *d) {
             Some(i) => {
                 let dg = w.log[i].clone();
@@ -388,6 +402,18 @@ pub fn act(w: &mut World, op: &Op) -> bool {
             let vid = ids::node_id(&v.id);
             let sig = match signer {
                 Signer::Adv(j) => hv::sign_nonce(&attacker_key(*j), &challenge, &eph_bytes, &vid).unwrap_or_default(),
+                Signer::AdvExtended(j, tail) => {
+                    let mut s = hv::sign_nonce(&attacker_key(*j), &challenge, &eph_bytes, &vid).unwrap_or_default();
+                    match tail % 6 {
+                        0 => s.push(0),
+                        1 => s.push(1),
+                        2 => s.push(27),
+                        3 => s.push(28),
+                        4 => s.extend_from_slice(&[0, 0]),
+                        _ => s.push(prng(w.step, 33, 1)[0]),
+                    }
+                    s
+                }
                 Signer::Garbage => prng(w.step, 31, 64),
                 Signer::Empty => vec![],
                 Signer::Truncated => {
